@@ -341,7 +341,10 @@ func edgeFlagValues(name string) []string {
 	case "flag_connect_to":
 		out = append(out, "a:1:b:2", "a:1:b:", "a::b:2", ":1:b:2", "a:1::2", "a:1:b:2:", ":a:1:b:2", "[::1]:1:b:2", "a:1:[::1]:2", "[]:1:b:2", "a:1:[]:2", "[:1:b:2", "]:1:b:2", "a:1:b:2\n", " a:1:b:2", "a:1:b:2 ", "a:1:b:-1", "a:1:b:65536", "a:1:b:99999999999999999999")
 	case "flag_dns_ttl":
-		out = append(out, "-1", "-1 ", "-01", "-1s", "-1ns", "0", "0s", "00", "1", "1s", "1 s", "1s ", " 1s", "1ss", "1s1", "1.s", ".s", ".1s", "1.1.1s", "9223372036854775807ns", "9223372036854775808ns", "2562047h47m16.854775807s", "2562047h47m16.854775808s", "1µs", "1μs", "1us")
+		out = append(out, "-1", "-1 ", "-01", "-1s", "-1ns", "0", "0s", "00", "1", "1s", "1 s", "1s ", " 1s", "1ss", "1s1", "1.s", ".s", ".1s", "1.1.1s", "9223372036854775807ns", "9223372036854775808ns", "2562047h47m16.854775807s", "2562047h47m16.854775808s", "1µs", "1μs", "1us",
+			// more than 22 accepted fraction digits: Go's scale is the iterated float product 10·10·… (thorough soak 8, seed 501)
+			"59m52.0000000"+strings.Repeat("9", 70)+"s", "0.00000000000000000000001s", "1.0000000"+strings.Repeat("9", 18)+"s",
+			"0."+strings.Repeat("0", 30)+"9999999999999999h", "0."+strings.Repeat("0", 23)+"5h", "2.00000000000000000000000001m", "0.0000000000000000000000922337203685477580h")
 	case "flag_resolvers":
 		out = append(out, "1.1.1.1", "1.1.1.1:", "1.1.1.1:53", "1.1.1.1:053", "1.1.1.1:0", "1.1.1.1:65536", ":53", "[::1]", "[::1]:", "[::1]:53", "::1", "::1:53", "[::1]x", "[::1]:x", "[::1]53", "[]", "[]:53", "[:]:53", "[", "]", "[[::1]]:53", "[::1", "::1]", "[::1]]", "[::1]:53:", "1.1.1.1,", ",1.1.1.1", "1.1.1.1,,8.8.8.8", "1.1.1.1, 8.8.8.8", " 1.1.1.1", "1.1.1.1 ", "[::1%lo]:53", "[fe80::1%]:53", "::", "[::]", ":::", "::::53")
 	}
